@@ -14,6 +14,18 @@ receivers, FLOWDIRCODE) and (ii) whether its bytes changed across the kernel cal
 buffer; the sequence of kernel calls and the aliasing of every argument must be identical, and a buffer observed
 to change must be flagged as written in the model (kernel write-sets).
 
+Correspondence, round 7: (i) every third repetition the same call is made again with every array of the caller set
+read-only: it must make the same kernel calls with the same aliasing (and the model's `nthCall` must say so: `repeat`)
+unless the model has a Python-level store into a caller buffer (`pywritten`), in which case numpy's read-only error is
+required — this ties the `pywrite` statements and the pure-Python terms (absolute_peak_error, lag, monthly2daily,
+gsmooth, YeoJohnson.forward, lstsq, acf, iqr, kde, lhs) to the code; (ii) the caller buffers the returned object shares memory
+with = the model's `results` (`returned_private`; incl. what Grid.data setter / clip / clone / apply / Catchment.__init__
+store); (iii) dtype of Grid arguments after the call = the model's `retyped`; (iv) numpy's generator state changed =>
+caller 9 (`rngState`) is in the written set. Object histories (`objects`): random operation lists on ONE Catchment,
+every step compared with the object-level model (Model/C18Obj.lean, `hist` request: raised?, None-ness, re-assigned
+attributes, aliasing between attributes, stores) + a frame oracle and a twin-object oracle; `grid_objects`: the same for
+Grid receivers (model-free: arrays given to / got from EARLIER calls keep their bytes and share no memory with the grid).
+
 Oracle (the failing-input search, and the ONLY coverage for functions that never reach a kernel and for
 repeatability of the real code): every public function of the property's quantifier x input kinds x two
 consecutive calls with the same numpy seed and the SAME argument objects: byte-wise snapshot (values, dtype,
@@ -21,6 +33,10 @@ shape, strides, the base buffer of strided views; pandas index/columns/dtypes; G
 Catchment state; transform parameters) of every argument before and after each call, and deep bit-wise
 equality of the two results; then a third call with OTHER data of the same kinds (same receiver): the first
 result object must still hold its snapshot and share no buffer with the third result.
+Histories (`histories`): call -> overwrite the result -> call; call A -> calls B with other data and the same options,
+among them a REJECTED one when the generator yields one (entries with a capacity argument: looked for on purpose), and
+A's own arguments spoiled -> call A again; edit arguments in place -> call; deep copy -> call; every answer compared
+with a pristine interpreter.
 
 Cases: input kinds = C-contiguous 64-bit (float64 / int64), series given as [n,1] arrays (contiguous, or one
 column of a wider table) or [1,n], strided view (every other element of a larger
@@ -33,6 +49,12 @@ import contextlib
 import os
 import struct
 import warnings
+
+# numpy / scipy are imported later (inside `load`): one BLAS / OpenMP thread. gaussian_kde on 25 points is ten times
+# SLOWER with a thread pool (16 spinning threads on a shared machine), and the forked reference processes must not
+# inherit a pool anyway
+for _v in ("OPENBLAS_NUM_THREADS", "OMP_NUM_THREADS", "MKL_NUM_THREADS"):
+    os.environ.setdefault(_v, "1")
 
 from . import common as C
 
@@ -538,7 +560,7 @@ def make_catchment(H, rng, boundary=True, flowdir=None):
     fd = flowdir or make_flowdir(H, rng)
     ca = H.grid.Catchment("ca", fd)
     outlet = (fd.nrows - 1) * fd.ncols + fd.ncols - 1
-    ca.delineate_area(outlet)
+    ca.delineate_area(outlet, nval=20000)      # fixtures: not the 3 x 8 MB work vectors of the default (exercised elsewhere)
     if boundary:
         ca.delineate_boundary()
     return ca
@@ -633,7 +655,7 @@ def wrapper_cases(H, rng, kind, holes="none", flow="acyclic"):
     cb = G.Catchment("cb", fd)
     outlet = fd.nrows * fd.ncols - 1
     a0 = v(np.array([0, 1]), "int")
-    out.append(("delineate_area", [a0, cb._flowdir._data, G.FLOWDIRCODE], lambda a0=a0: cb.delineate_area(outlet, a0)))
+    out.append(("delineate_area", [a0, cb._flowdir._data, G.FLOWDIRCODE], lambda a0=a0, nv=rng.choice([20000, 20000, 1000000]): cb.delineate_area(outlet, a0, nval=nv)))
     if kind == "c64":
         fd2 = make_flowdir(H, rng)
         cc = G.Catchment("cc", fd2)
@@ -678,6 +700,66 @@ def wrapper_cases(H, rng, kind, holes="none", flow="acyclic"):
     a0 = v(pts)
     out.append(("voronoi", [a0, cv._idxcells_area], lambda a0=a0: G.voronoi(cv, a0)))
 
+    # ---- pure-Python bodies that store in place into something derived from an argument (no kernel: compared through
+    # the read-only run and the contents semantics)
+    m = rng.randint(30, 45)
+    a0, a1 = v(np.array(floats(rng, m, -1, 10))), v(np.array(floats(rng, m, -1, 10)))
+    out.append(("absolute_peak_error", [a0, a1], lambda a0=a0, a1=a1: H.metrics.absolute_peak_error(
+        a0, a1, winpeakbefore=2, winpeakafter=3, winerase=6, neventmax=3)))
+    a0 = v(x)
+    lg = rng.choice([-2, 0, 1, 3])
+    out.append(("lag", [a0], lambda a0=a0: H.dutils.lag(a0, lg)))
+    a0 = v(np.array(floats(rng, n, -2, 2)))
+    yj = H.transform.YeoJohnson()
+    yj.lam = rng.choice([0.7, 0., 2., 1.3])
+    out.append(("yeojohnson_forward", [a0], lambda a0=a0: yj.forward(a0)))
+    a0 = v(np.array(floats(rng, 25)))
+    fl = np.array([rng.random() < 0.8 for _ in range(25)])
+    if kind in ("strided", "revF"):
+        big = np.zeros(51, dtype=bool)
+        big[::2][:25] = fl
+        fl = big[::2][:25]
+    out.append(("acf", [a0, fl], lambda a0=a0, fl=fl, ml=rng.choice([1, 3, 5]): H.sutils.acf(a0, maxlag=ml, idx=fl)))
+    a0, a1 = v(np.array(floats(rng, 40)).reshape(8, 5)), v(np.array(floats(rng, 48)).reshape(8, 6))
+    out.append(("iqr", [a0, a1], lambda a0=a0, a1=a1, cv=rng.choice([50., 90.]): H.metrics.iqr(a0, a1, coverage=cv)))
+    a0, a1 = v(np.array(floats(rng, 3, 0, 1))), v(np.array(floats(rng, 3, 2, 3)))
+    out.append(("lhs", [a0, a1], lambda a0=a0, a1=a1: H.sutils.lhs(rng.choice([1, 5, 12]), a0, a1)))
+    if kind in ("c64", "strided", "revF", "list", "pandas"):       # scipy's gaussian_kde is slow: not for every kind
+        a0 = v(np.array(floats(rng, 24, -2, 2)).reshape(12, 2))
+        out.append(("kde", [a0], lambda a0=a0, e=rng.choice([1e-10, 1e-3]): H.putils.kde(a0, ngrid=4, eps=e)))
+    if kind == "pandas":
+        mon = pd.Series(inject(np, rng, floats(rng, 14), holes), index=pd.date_range("2001-01-01", periods=14, freq="MS"))
+        out.append(("monthly2daily", [mon], lambda mon=mon, ip=rng.choice(["flat", "cubic"]): H.dutils.monthly2daily(mon, interpolation=ip)))
+        Xf = pd.DataFrame(np.array(floats(rng, 40, -2, 2)).reshape(20, 2), columns=["a", "b"])
+        yf = pd.Series(np.array(floats(rng, 20, -2, 2)))
+        out.append(("lstsq_intercept", [Xf, yf], lambda Xf=Xf, yf=yf: H.sutils.lstsq(Xf, yf, add_intercept=True)))
+    gsd = {"c64": np.float64, "flt": np.float32}.get(kind)
+    if gsd is not None:
+        gs = G.Grid("gs", 7, 6, cellsize=1., xllcorner=0., yllcorner=0., dtype=gsd, nodata=-9)
+        gs.data = inject(np, rng, np.round(np.array(floats(rng, 42, 0, 50))).reshape(6, 7), holes if holes != "naninf" else "nan")
+        gm = G.Grid("gm", 7, 6, cellsize=1., xllcorner=0., yllcorner=0., dtype=np.int32, nodata=0)
+        gm.data = (np.array(floats(rng, 42, 0, 1)) > 0.2).astype(int).reshape(6, 7)
+        mk = gm if rng.random() < 0.6 else None
+        out.append(("gsmooth", [gs, mk], lambda gs=gs, mk=mk, mv=rng.choice([-np.inf, 20.]): G.gsmooth(
+            gs, mk, coastwin=5, sigma=0.5, minval=mv)))
+
+    # ---- what Grid / Catchment objects keep of what they are given (a later mutator writes through it)
+    sdt = rng.choice([np.float64, np.float32, np.int64, np.int32])
+    a0 = v(np.round(np.array(floats(rng, 42, 0, 50))).reshape(6, 7), "float" if np.dtype(sdt).kind == "f" else "int")
+    gset = G.Grid("gset", 7, 6, dtype=sdt)
+    out.append(("grid_data_setter", [a0], lambda a0=a0: (setattr(gset, "data", a0), gset._data)[1]))
+    gsrc = G.Grid("gsrc", 7, 6, cellsize=1., xllcorner=0., yllcorner=0., dtype=sdt)
+    gsrc.data = np.round(np.array(floats(rng, 42, 0, 50))).reshape(6, 7)
+    out.append(("grid_clip", [gsrc._data], lambda: gsrc.clip(rng.uniform(0.2, 2.8), 1.3, 5.1, 4.2)._data))
+    out.append(("grid_clone", [gsrc._data], lambda dt=rng.choice([None, np.float32, np.int64]): gsrc.clone(dt)._data))
+
+    def cb_same(z):
+        z[z < 20] = 0
+        return z
+    out.append(("grid_apply", [gsrc._data], lambda f=rng.choice([cb_same, np.sqrt, np.abs]): gsrc.apply(f)._data))
+    fdc = make_flowdir(H, rng, dtype=rng.choice([np.int64, np.int32]), mode=flow)
+    out.append(("catchment_init", [fdc._data], lambda: G.Catchment("ci", fdc)._flowdir._data))
+
     poly = np.array([[1., 1.], [5., 1.2], [5.5, 4.5], [2., 5.], [1., 1.]])
     a0, a1 = v(xy), v(poly)
     out.append(("points_inside_polygon", [a0, a1], lambda a0=a0, a1=a1: H.gutils.points_inside_polygon(a0, a1)))
@@ -692,11 +774,22 @@ def wrapper_cases(H, rng, kind, holes="none", flow="acyclic"):
 # wrappers whose last nested kernel call is guarded by a test on the data (`if idx.sum() > 0`, `if len(boundary) >= 3`)
 OPTIONAL_TAIL = {"delineate_area": 1, "delineate_area_noinlets": 1, "delineate_boundary": 1,
                  "delineate_boundary_nomask": 1}
-ALLOWED = {"delineate_boundary": [1], "delineate_boundary_nomask": [1], "points_inside_polygon_out": [2]}
+RNG = 9        # caller index that stands for the state of numpy's global random generator (Model: `rngState`)
+ALLOWED = {"delineate_boundary": [1], "delineate_boundary_nomask": [1], "points_inside_polygon_out": [2],
+           "kde": [RNG], "lhs": [RNG]}
+DT_TOKEN = {"float64": "f64", "float32": "f32", "int64": "i64", "int32": "i32"}
+# wrappers whose thunk returns everything the model's `results` lists (not only a part of it)
+RESULT_COMPARED = {"aggregate", "flathomogen", "var2h", "islinear", "eckhardt", "crps", "anderson_darling_test", "dscore",
+                   "armodel_sim", "armodel_residual", "pareto_front", "coord2cell", "cell2coord", "cell2rowcol", "neighbours",
+                   "slice", "upstream", "downstream", "intersect", "delineate_river", "accumulate", "accumulate_default",
+                   "voronoi", "slope", "points_inside_polygon", "points_inside_polygon_out", "lag", "gsmooth",
+                   "yeojohnson_forward", "lhs", "monthly2daily", "grid_data_setter", "grid_clip", "grid_clone", "grid_apply",
+                   "catchment_init"}
 
 
 def correspondence(ctx, H, rec):
     rng = ctx.rng
+    np = H.np
     rows, case_holes = [], []
     canonical_rejected = {}
     for rep in range(ctx.scale(6, 60)):
@@ -716,31 +809,106 @@ def correspondence(ctx, H, rec):
                     return ("cells", b._data.shape, b._data.ravel().tolist()) if isinstance(b, H.grid.Grid) else b.tobytes()
                 snaps = [bsnap(b) for b in bufs]
                 err = None
+                gdt0 = {i: str(b._data.dtype) for i, b in enumerate(bufs) if isinstance(b, H.grid.Grid)}
+                rng0 = np.random.get_state()[1].tobytes(), np.random.get_state()[2]
+                res_alias = None
                 with rec.recording(bufs), warnings.catch_warnings(), quiet_stdout():
                     warnings.simplefilter("ignore")
                     try:
-                        thunk()
+                        res = thunk()
+                        if res is not None:
+                            # caller buffers that what the call handed back refers to
+                            rl = leaves(H, res)
+                            res_alias = sorted(i for i, b in enumerate(bufs) if b is not None and any(
+                                np.shares_memory(x, b._data if isinstance(b, H.grid.Grid) else b) for x in rl))
+                        del res
                     except Exception as e:     # noqa: a kind may be rejected
                         err = f"{type(e).__name__}: {str(e)[:80]}"
                 events = list(rec.events)
                 changed = [i for i, (b, s) in enumerate(zip(bufs, snaps)) if b is not None and (
                     not cells_equal(bsnap(b)[2], s[2]) if isinstance(b, H.grid.Grid) else b.tobytes() != s)]
-                rows.append((name, kind, toks, events, err, changed))
+                if (np.random.get_state()[1].tobytes(), np.random.get_state()[2]) != rng0:
+                    changed.append(RNG)
+                gdt1 = {i: str(bufs[i]._data.dtype) for i in gdt0}
+                # every third repetition: the SAME call again with every array of the caller made read-only. It must
+                # behave the same (same kernel calls, same aliasing) unless the body stores into a caller buffer at the
+                # Python level, which then fails with numpy's "read-only" error: compared with the model's `pywritten`
+                second = None
+                if rep % 3 == 0 and err is None:
+                    frozen = []
+                    for b in bufs:
+                        arr = b._data if isinstance(b, H.grid.Grid) else b
+                        if isinstance(arr, np.ndarray) and arr.flags.writeable:
+                            arr.flags.writeable = False
+                            frozen.append(arr)
+                    err2 = None
+                    with rec.recording(bufs), warnings.catch_warnings(), quiet_stdout():
+                        warnings.simplefilter("ignore")
+                        try:
+                            thunk()
+                        except Exception as e:     # noqa
+                            err2 = f"{type(e).__name__}: {str(e)[:80]}"
+                    for arr in frozen:
+                        arr.flags.writeable = True
+                    second = (err2, list(rec.events), [i for i, b in enumerate(bufs) if b is not None and any(
+                        (b._data if isinstance(b, H.grid.Grid) else b) is a for a in frozen)])
+                rows.append((name, kind, toks, events, err, changed, (gdt0, gdt1), second, res_alias))
                 if kind == "c64" and holes == "none" and flow == "acyclic" and err is not None:
                     canonical_rejected[name] = err
                 case_holes.append(holes)
-    replies = ctx.lean.ask([f"run {name} [{','.join(toks)}]" for name, _k, toks, _e, _r, _c in rows])
+    replies = ctx.lean.ask([f"run {r[0]} [{','.join(r[2])}]" for r in rows])
+    repeats = ctx.lean.ask([f"repeat {r[0]} [{','.join(r[2])}] 1" for r in rows])
     safes = dict(zip(sorted({r[0] for r in rows}),
                      ctx.lean.ask([f"safe {n} {C.ilist(ALLOWED.get(n, []))}" for n in sorted({r[0] for r in rows})])))
-    marks = ctx.lean.ask([f"mark {name} [{','.join(toks)}]" for name, _k, toks, _e, _r, _c in rows])
+    marks = ctx.lean.ask([f"mark {r[0]} [{','.join(r[2])}]" for r in rows])
     never_changed, witness = {}, {}
-    for (name, kind, toks, events, err, changed), rep, hol, mk in zip(rows, replies, case_holes, marks):
+    ro_stats = {"second_calls_with_read_only_arguments": 0, "rejected_as_the_model_says": 0}
+    for (name, kind, toks, events, err, changed, gdts, second, res_alias), rep, hol, mk, rpt in zip(rows, replies, case_holes, marks, repeats):
         case = {"wrapper": name, "kind": kind, "kinds": toks[:4], "error": err, "holes": hol}
         if not rep.startswith("ok "):
             ctx.disagree(f"driver: {rep}", case)
             continue
         mev = [] if rep.split()[1] == "-" else rep.split()[1].split("|")
-        mwritten = [int(t) for t in C.parse_list(rep.split("written=")[1])]
+        mwritten = [int(t) for t in C.parse_list(rep.split("written=")[1].split()[0])]
+        mretyped = dict(t.split(":") for t in C.parse_list(rep.split("retyped=")[1].split()[0]))
+        mpyw = [int(t) for t in C.parse_list(rep.split("pywritten=")[1].split()[0])]
+        mres = [int(t) for t in C.parse_list(rep.split("results=")[1].split()[0])]
+        # what the call hands back / stores refers to exactly the caller buffers the model says (none, for all but the
+        # OUTPUT-array form): `returned_private`
+        if err is None and res_alias is not None and name in RESULT_COMPARED:
+            if res_alias != sorted(mres):
+                ctx.disagree(f"{name}: what the call hands back shares memory with caller buffers {res_alias}, the model "
+                             f"says {mres}", case)
+            ctx.hist["corr/result_aliasing_compared"] = ctx.hist.get("corr/result_aliasing_compared", 0) + 1
+        # dtype of the caller's Grid objects after the call: exactly what the model's `retyped` says
+        if err is None:
+            for i, before_dt in gdts[0].items():
+                want = mretyped.get(str(i), DT_TOKEN.get(before_dt, "other"))
+                if DT_TOKEN.get(gdts[1][i], "other") != want:
+                    ctx.disagree(f"{name}: the caller's grid {i} has dtype {gdts[1][i]} after the call (it had {before_dt}), "
+                                 f"the model says {want}", case)
+                elif gdts[1][i] != before_dt:
+                    ctx.hist["corr/grid_argument_retyped_as_modelled"] = ctx.hist.get("corr/grid_argument_retyped_as_modelled", 0) + 1
+        # the second call with read-only arguments
+        if second is not None:
+            err2, events2, frozen_idx = second
+            ro_stats["second_calls_with_read_only_arguments"] += 1
+            expect_fail = bool(set(mpyw) & set(frozen_idx))
+            failed_ro = err2 is not None and "read-only" in err2
+            if expect_fail != failed_ro or (err2 is not None and not failed_ro):
+                ctx.disagree(f"{name}: second call with the caller's arrays read-only -> {err2}; the model has Python-level "
+                             f"stores into callers {mpyw} (read-only here: {frozen_idx})", case)
+            elif failed_ro:
+                ro_stats["rejected_as_the_model_says"] += 1
+            else:
+                def fmt(evs):
+                    return "|".join(f"{nm}(" + ",".join("-" if not al else "+".join(map(str, al)) for al, _ch in args) + ")"
+                                    for nm, args, _r, _n in evs)
+                if fmt(events2) != fmt(events):
+                    ctx.disagree(f"{name}: the second call does not make the kernel calls of the first: {fmt(events2)} / "
+                                 f"{fmt(events)}", case)
+                if rpt.split(" marked=")[0] != rep.split(" written=")[0]:
+                    ctx.disagree(f"{name}: model: the second of two calls differs from the first: {rpt} / {rep}", case)
         # the contents semantics (mrun, marking instance): buffers whose CONTENTS the model says may change
         marked = [int(t) for t in C.parse_list(mk.split(" ", 1)[1])] if mk.startswith("ok ") else None
         if marked is None or sorted(marked) != sorted(mwritten):
@@ -789,8 +957,16 @@ def correspondence(ctx, H, rec):
         if bad:
             ctx.finding(f"{name}/kernel_path/caller_buffer_{bad[0]}_changed/{kind}",
                         "a buffer that existed before the call was modified through the kernel-facing wrapper", case)
-        if safes.get(name) != "true":
+        sf = (safes.get(name) or "?").split()
+        if sf[0] != "true":
             ctx.disagree(f"{name}: the ownership check of the model fails (safe -> {safes.get(name)})", case)
+        # the syntactic checks `ReturnsPrivate` / `noRetype` against what the run of the model and the real call show
+        if "private=true" in sf and (mres or (res_alias and name in RESULT_COMPARED and err is None)):
+            ctx.disagree(f"{name}: the model decides that what is handed back is private, but results={mres}, observed "
+                         f"aliasing {res_alias}", case)
+        if "noretype=true" in sf and err is None and (mretyped or any(gdts[1][i] != d for i, d in gdts[0].items())):
+            ctx.disagree(f"{name}: the model decides that no object is converted in place, but retyped={mretyped}, grid "
+                         f"dtypes {gdts[0]} -> {gdts[1]}", case)
         ctx.count(("corr", name, tuple(toks[:4])), err is None and bool(events),
                   f"corr/{'rejected' if err else 'accepted'}",
                   sample={"wrapper": name, "kinds": toks[:3], "impl": "|".join(impl_s)[:120], "model": rep[:120]})
@@ -800,7 +976,8 @@ def correspondence(ctx, H, rec):
     ctx.extra["wrappers_compared"] = sorted({r[0] for r in rows})
     # the witnesses of the `..._writes_receiver` / `..._writes_output` theorems replayed on the real code
     ctx.extra["allowed_caller_writes_observed"] = witness
-    for need in ("delineate_boundary_nomask", "points_inside_polygon_out"):
+    ctx.extra["read_only_second_calls"] = ro_stats
+    for need in ("delineate_boundary_nomask", "points_inside_polygon_out", "kde", "lhs"):
         if not any(k.startswith(need + ":") for k in witness):
             ctx.disagree(f"{need}: the model says the allowed caller buffer is written, the real code never changed it",
                          {"wrapper": need})
@@ -809,7 +986,8 @@ def correspondence(ctx, H, rec):
 # ----------------------------------------------------------------------------------------------
 # oracle: every public function of the quantifier
 class Entry:
-    def __init__(self, name, fn, gen, canonical="c64", optional=False, options=None, covers=None, reference=None):
+    def __init__(self, name, fn, gen, canonical="c64", optional=False, options=None, covers=None, reference=None,
+                 faulty=False):
         # optional: the function is allowed to reject every case (a variant outside what it documents)
         # options: documented keyword options -> values to exercise (first = the default, used in the canonical case)
         self.name, self.fn, self.gen, self.canonical, self.optional = name, fn, gen, canonical, optional
@@ -818,6 +996,9 @@ class Entry:
         self.covers = covers or [name.split("/")[0]]
         # the same answer obtained another way (e.g. without the optional work buffer), compared in the histories
         self.reference = reference
+        # faulty: the function has a capacity / limit argument whose overflow is a documented way to fail AFTER work has
+        # been done (nval, max_accumulated_cells, neventmax ...): more fault-path histories are run for it
+        self.faulty = faulty
 
 
 def build_entries(H):
@@ -825,8 +1006,8 @@ def build_entries(H):
     M, S, A, T, D, Q, SG = H.metrics, H.sutils, H.armodels, H.transform, H.dutils, H.qualitycontrol, H.signatures
     E = []
 
-    def add(name, fn, gen, canonical="c64", optional=False, options=None, covers=None, reference=None):
-        E.append(Entry(name, fn, gen, canonical, optional, options, covers, reference))
+    def add(name, fn, gen, canonical="c64", optional=False, options=None, covers=None, reference=None, faulty=False):
+        E.append(Entry(name, fn, gen, canonical, optional, options, covers, reference, faulty))
 
     def N(n):
         """series length: beyond the internal thresholds of the library in the `big` cases (same offset for every
@@ -1175,9 +1356,31 @@ def build_entries(H):
     add("Catchment.downstream", lambda self, idxup: self.downstream(idxup),
         lambda rng: [Arg("self", rawcatch(rng), "fixed"), Arg("idxup", gcells(rng), "int")])
     # mutators of their receiver: the receiver is rebuilt, the ARGUMENTS are what must stay untouched
-    add("Catchment.delineate_area", lambda flowdir, idxinlets, **o: _delin(G, flowdir, idxinlets, **o),
-        options={"nval": [1000000, 5, 20, 1]}, gen=
-        lambda rng: [Arg("flowdir", make_flowdir(H, rng, mode=fmode(rng)), "fixed"), Arg("idxinlets", np.array([0, 8]), "int")])
+    def outlet_cell(rng, nrows=6, ncols=7):
+        """the outlet of a delineation: the last cell (everything drains there) in the canonical case; otherwise any cell,
+        half of the time one of the first two rows / columns (a handful of cells upstream: fits a small `nval`), else one
+        of the lower-right quarter (most of the grid upstream: overflows it), and now and then a cell outside the grid"""
+        if not (H.varied or H.big):
+            return nrows * ncols - 1
+        u = rng.random()
+        if u < 0.45:
+            r, c = rng.choice([(rng.randrange(2), rng.randrange(ncols)), (rng.randrange(nrows), rng.randrange(2))])
+        elif u < 0.9:
+            r, c = rng.randrange(nrows // 2, nrows), rng.randrange(ncols // 2, ncols)
+        elif u < 0.95:
+            return rng.choice([-1, nrows * ncols])
+        else:
+            r, c = rng.randrange(nrows), rng.randrange(ncols)
+        return r * ncols + c
+
+    def inlet_cells(rng):
+        if not (H.varied or H.big):
+            return np.array([0, 8])
+        return np.array([rng.randrange(42) for _ in range(rng.randint(1, 3))])
+    add("Catchment.delineate_area", lambda flowdir, idxinlets, outlet, **o: _delin(G, flowdir, idxinlets, outlet, **o),
+        options={"nval": [1000000, 5, 20, 1, 8, 12]}, faulty=True, gen=
+        lambda rng: [Arg("flowdir", make_flowdir(H, rng, mode=fmode(rng)), "fixed"), Arg("idxinlets", inlet_cells(rng), "int"),
+                     Arg("outlet", outlet_cell(rng), "fixed")])
     add("Catchment.delineate_boundary", lambda self, mask: _bound(self, mask),
         lambda rng: _mask_args(H, rng, catch(rng, False)))
     add("Catchment.compute_flowpathlengths", lambda self: _fpl(self),
@@ -1216,10 +1419,10 @@ def build_entries(H):
     add("grid.delineate_river",
         lambda flowdir, idxupstream, nval: G.delineate_river(flowdir, idxupstream, **({} if H.big else dict(nval=nval))),
         lambda rng: [Arg("flowdir", fdir(rng), "fixed"), Arg("idxupstream", rng.choice([0, 0, 1, 8]), "fixed")], "fixed",
-        options={"nval": [60, 2, 3, 5, 1, 5000]})
+        options={"nval": [60, 2, 3, 5, 1, 5000]}, faulty=True)
     add("grid.accumulate", lambda flowdir, to_accumulate, **o: G.accumulate(flowdir, to_accumulate, **o),
         lambda rng: [Arg("flowdir", fdir(rng), "fixed"), Arg("to_accumulate", fgrid(rng, rng.choice(gtypes)), "fixed")], "fixed",
-        options={"nprint": [10 ** 9, 100, 1, 7], "max_accumulated_cells": [-1, 1, 3, 10]})
+        options={"nprint": [10 ** 9, 100, 1, 7], "max_accumulated_cells": [-1, 1, 3, 10]}, faulty=True)
     add("grid.accumulate/default", lambda flowdir, **o: G.accumulate(flowdir, **o),
         lambda rng: [Arg("flowdir", fdir(rng), "fixed")], "fixed",
         options={"nprint": [10 ** 9, 100, 1, 7], "max_accumulated_cells": [-1, 1, 3, 10]})
@@ -1412,10 +1615,10 @@ def build_entries(H):
     return E
 
 
-def _delin(G, flowdir, idxinlets, **o):
+def _delin(G, flowdir, idxinlets, outlet, **o):
     ca = G.Catchment("x", flowdir)
-    ca.delineate_area(flowdir.nrows * flowdir.ncols - 1, idxinlets, **o)
-    return (ca._idxcells_area, ca._idxcells_area_filled, ca._idxinlets)
+    ca.delineate_area(outlet, idxinlets, **o)
+    return (ca._idxcells_area, ca._idxcells_area_filled, ca._idxinlets, ca._idxcell_outlet)
 
 
 def _bound(ca, mask):
@@ -1919,6 +2122,37 @@ def scramble(H, x, depth=0):
         scramble(H, x._flowdir, depth + 1)
 
 
+def spoil(H, kw, shared, mode):
+    """the arguments of a case made unfit for the call (the usual ways a caller gets it wrong): `short` = the LAST data
+    argument loses its last element (paired series of unequal lengths; a table that no longer matches), `nan` = every
+    float data argument is all-NaN. Copies: the originals are left alone. -> None when the case has no data argument."""
+    np, pd = H.np, H.pd
+    names = [n for n in sorted(kw) if n not in shared and isinstance(kw[n], (np.ndarray, pd.Series, pd.DataFrame, list))
+             and len(kw[n]) > 0]
+    if not names:
+        return None
+    out = dict(kw)
+    if mode == "short":
+        n = names[-1]
+        x = kw[n]
+        out[n] = (x.iloc[:-1].copy() if isinstance(x, (pd.Series, pd.DataFrame)) else
+                  (x[:-1].copy() if isinstance(x, np.ndarray) else list(x[:-1])))
+        return out
+    done = False
+    for n in names:
+        x = kw[n]
+        if isinstance(x, np.ndarray) and x.dtype.kind == "f":
+            out[n] = np.full_like(x, np.nan)
+            done = True
+        elif isinstance(x, pd.Series) and x.dtype.kind == "f":
+            out[n] = pd.Series(np.full(len(x), np.nan), index=x.index, name=x.name)
+            done = True
+        elif isinstance(x, pd.DataFrame) and all(t.kind == "f" for t in x.dtypes):
+            out[n] = pd.DataFrame(np.full(x.shape, np.nan), index=x.index, columns=x.columns)
+            done = True
+    return out if done else None
+
+
 def snap_equal(a, b):
     if isinstance(a, float) and isinstance(b, float):
         return a == b or (a != a and b != b)
@@ -1960,24 +2194,32 @@ def histories(ctx, H, entries, pristine):
             continue
         probe = ent.gen(rng)
         data_args = [a.name for a in probe if a.nature in ("float", "int")]
-        for ih in range(ctx.scale(2, 6)):
-            asg = {n: ("c64" if ih == 0 else rng.choice(KINDS)) for n in data_args}
-            spec = {"seed": rng.randrange(2 ** 31), "asg": asg, "iplan": ih, "tiny": False, "big": False,
-                    "bigoff": rng.randint(501, 560), "varied": ih > 0 and rng.random() < 0.5,
-                    "holes": "none" if ih == 0 else rng.choice(["none", "none", "nan"])}
-            seed = rng.randrange(2 ** 31)
-            kw, optvals, kinds_used, receivers = make_case(H, ent, spec)
-            case = {"function": ent.name, "kinds": kinds_used, "case_seed": spec["seed"], "numpy_seed": seed}
-            stats["histories"] += 1
-            # step 0: first answer == pristine answer
-            r1 = call(ent, kw, optvals, seed)
-            ref1 = pristine.ask(ie, spec, 0, seed)
-            stats["steps"] += 1
-            stats["pristine_answers"] += ref1[0] != "infra"
-            versus(ent, "first_answer_differs_from_pristine_state",
-                   "the answer depends on what the process did before (differs from a fresh interpreter on the same "
-                   "arguments)", r1, ref1, case)
-            ctx.count(("history", ent.name, ih, spec["seed"]), r1[0] == "ok", f"history/{'ok' if r1[0] == 'ok' else 'rejected'}")
+        for ih in range(ctx.scale(2, 6) * (6 if ent.faulty else 1)):
+            # entries with a capacity argument: two histories per value of it, inputs at / beyond the limits from the
+            # second history on, and a case the function rejects is re-drawn (at most twice): the rejected calls are
+            # then part of what happened before the accepted one, whose answer must still be the pristine one
+            for _attempt in range(3 if ent.faulty and ih > 0 else 1):
+                asg = {n: ("c64" if ih == 0 else rng.choice(KINDS)) for n in data_args}
+                spec = {"seed": rng.randrange(2 ** 31), "asg": asg, "iplan": ih // 2 if ent.faulty else ih, "tiny": False,
+                        "big": False, "bigoff": rng.randint(501, 560),
+                        "varied": ih > 0 and (ent.faulty or rng.random() < 0.5),
+                        "holes": "none" if ih == 0 else rng.choice(["none", "none", "nan"])}
+                seed = rng.randrange(2 ** 31)
+                kw, optvals, kinds_used, receivers = make_case(H, ent, spec)
+                case = {"function": ent.name, "kinds": kinds_used, "case_seed": spec["seed"], "numpy_seed": seed}
+                stats["histories"] += 1
+                # step 0: first answer == pristine answer
+                r1 = call(ent, kw, optvals, seed)
+                ref1 = pristine.ask(ie, spec, 0, seed)
+                stats["steps"] += 1
+                stats["pristine_answers"] += ref1[0] != "infra"
+                versus(ent, "first_answer_differs_from_pristine_state",
+                       "the answer depends on what the process did before (differs from a fresh interpreter on the same "
+                       "arguments)", r1, ref1, case)
+                ctx.count(("history", ent.name, ih, spec["seed"]), r1[0] == "ok",
+                          f"history/{'ok' if r1[0] == 'ok' else 'rejected'}")
+                if r1[0] == "ok":
+                    break
             if r1[0] != "ok":
                 continue
             # step 1: overwrite the returned object in place, call again: the original answer
@@ -2007,20 +2249,49 @@ def histories(ctx, H, entries, pristine):
                                 f"buffer: {d}", case)
             if receivers:
                 continue        # a mutator's receiver legitimately accumulates state: no pristine comparison after edits
-            # step 1b: call A -> call B (other arguments; same receiver, same caller-supplied work buffers) -> call A again
-            snapA = sn.snap(call(ent, kw, optvals, seed)[1]) if shared else None
-            if shared:
-                spec_b = dict(spec, seed=rng.randrange(2 ** 31))
-                kwb, optb, _k, _r = make_case(H, ent, spec_b)
-                for n in shared:
-                    kwb[n] = kw[n]
-                call(ent, kwb, optb, seed + 1)
-                make_case(H, ent, spec)          # restores the case flags (H.varied ...) of A; its objects are not used
+            # step 1b: call A -> calls B (other data, SAME options, same receiver / caller-supplied work buffers; a B that the
+            # function REJECTS is looked for: other cases of the generator, then A's own arguments spoiled) -> call A
+            # again: the first answer. A failed call must leave nothing behind (work vectors, caches, receiver state)
+            # that a later valid call picks up.
+            if shared or ent.faulty or ih % 2 == 1:
+                snapA = sn.snap(call(ent, kw, optvals, seed)[1])
+                tried, rejected = 0, 0
+
+                def other_cases():
+                    nonlocal tried, rejected
+                    for _t in range(ctx.scale(3, 6) if ent.faulty else ctx.scale(1, 2)):
+                        spec_b = dict(spec, seed=rng.randrange(2 ** 31))
+                        kwb, optb, _k, _r = make_case(H, ent, spec_b)
+                        for n in shared:
+                            kwb[n] = kw[n]
+                        rb = call(ent, kwb, optb, seed + 1)
+                        tried += 1
+                        if rb[0] == "err":
+                            rejected += 1
+                            break
+                    make_case(H, ent, spec)      # restores the case flags (H.varied ...) of A; its objects are not used
+
+                def spoiled_cases():
+                    nonlocal tried, rejected
+                    for mode in ("short", "nan"):
+                        kws = spoil(H, kw, shared, mode)
+                        if kws is not None:
+                            rb = call(ent, kws, optvals, seed + 2)
+                            tried += 1
+                            rejected += rb[0] == "err"
+                # the call made right before A is called again is, in turn, a rejected case of the generator (when one is
+                # found) or A's own arguments spoiled
+                for part in ((spoiled_cases, other_cases) if ih % 2 == 0 else (other_cases, spoiled_cases)):
+                    part()
                 ra = call(ent, kw, optvals, seed)
-                stats["steps"] += 2
+                stats["steps"] += tried + 2
                 stats["aba"] = stats.get("aba", 0) + 1
+                stats["aba_rejected_b"] = stats.get("aba_rejected_b", 0) + rejected
+                ctx.hist[f"history/aba/{'with' if rejected else 'without'}_rejected_call"] = \
+                    ctx.hist.get(f"history/aba/{'with' if rejected else 'without'}_rejected_call", 0) + 1
                 versus(ent, "answer_changed_by_intermediate_call",
-                       "call A, call B with other arguments on the same receiver / work buffers, call A again: the "
+                       "call A, calls B with other arguments (same options, same receiver / work buffers"
+                       + (", at least one of them rejected" if rejected else "") + "), call A again: the "
                        "answer differs from the first one", ra, ("ok", snapA), case)
             # step 2: arguments edited in place / public attributes re-assigned, equal sizes
             mutate_args(H, kw)
@@ -2050,6 +2321,440 @@ def histories(ctx, H, entries, pristine):
     ctx.extra["histories"] = stats
     if pristine.ok == 0:
         ctx.disagree("histories: no reference answer could be obtained from the pristine process", {})
+
+# ----------------------------------------------------------------------------------------------
+# histories on ONE Catchment receiver: random lists of public operations (accepted, rejected at each fault site, the
+# caller overwriting the arrays the accessors hand out), every step compared with the object-level model
+# (Model/C18Obj.lean: `hist` request) and checked by two model-free oracles
+OBJ_FIELDS = ["outlet", "inlets", "area", "filled", "boundary", "xyboundary", "fpl"]
+OBJ_ATTR = {"outlet": "_idxcell_outlet", "inlets": "_idxinlets", "area": "_idxcells_area", "filled": "_idxcells_area_filled",
+            "boundary": "_idxcells_boundary", "xyboundary": "_xycells_boundary", "fpl": "_flowpathlengths"}
+# what each method is documented to produce (everything else of the receiver must come out bit for bit as it went in)
+OBJ_WRITES = {"delineate_area": {"outlet", "inlets", "area", "filled"}, "delineate_boundary": {"boundary", "xyboundary"},
+              "compute_flowpathlengths": {"fpl"}}
+
+
+def _obj_bytes(H, v):
+    np, pd = H.np, H.pd
+    if v is None:
+        return None
+    if isinstance(v, pd.DataFrame):
+        return ("df", tuple(map(str, v.columns)), np.ascontiguousarray(v.values).tobytes())
+    a = np.asarray(v)
+    return (str(a.dtype), a.shape, a.tobytes())
+
+
+def objects(ctx, H, rec):
+    np, pd, G = H.np, H.pd, H.grid
+    rng = ctx.rng
+    stats = {"histories": 0, "operations": 0, "rejected_operations": 0, "twin_comparisons": 0, "caller_edits": 0,
+             "aliased_attributes_seen": 0}
+    requests, observed = [], []
+
+    def fields_of(ca):
+        return {f: getattr(ca, OBJ_ATTR[f], None) for f in OBJ_FIELDS}
+
+    def same_buffer(a, b):
+        if a is b:
+            return True
+        if isinstance(a, np.ndarray) and isinstance(b, np.ndarray) and a.size and b.size:
+            return bool(np.shares_memory(a, b))
+        return False
+
+    def finding(method, tag, field, what, case):
+        ctx.finding(f"Catchment.{method}/history/{tag}/{field}", what, case)
+
+    for ih in range(ctx.scale(60, 400)):
+        nrows, ncols = rng.randint(4, 7), rng.randint(4, 8)
+        mode = rng.choice(["acyclic", "acyclic", "acyclic", "cycle", "invalid"])
+        fd = make_flowdir(H, rng, nrows, ncols, dtype=rng.choice([np.int64, np.int32]), mode=mode)
+        ncell = nrows * ncols
+        ca = G.Catchment("h", fd)
+        fd_bytes = ca._flowdir.data.tobytes()
+        coarse = G.Grid("coarse", 3, 3, cellsize=3., xllcorner=-0.5, yllcorner=-0.5, dtype=np.float64)
+        toks, steps, keepalive = [], [], []
+        last_area = None        # arguments of the last accepted delineation
+        dirty = set()           # attributes the caller has overwritten since
+        done_after = set()      # 'fpl' / 'boundary': computed after the last accepted delineation (with which mask)
+        hist_desc = []
+        cap = rng.choice([None, None, 6, 10, ncell + 2])       # one capacity for the whole history (work vectors of a size)
+        # arrays the caller handed in earlier (the constructor's grid, inlets, masks): out of reach of every later method,
+        # and never what an attribute refers to (the model: every attribute refers to a buffer made inside a call)
+        given = [["the flow direction grid given to the constructor", fd._data, fd._data.tobytes()]]
+
+        def small_cell():
+            r, c = rng.choice([(rng.randrange(2), rng.randrange(ncols)), (rng.randrange(nrows), rng.randrange(2))])
+            return r * ncols + c
+
+        for iop in range(rng.randint(5, ctx.scale(12, 20))):
+            before = fields_of(ca)
+            before_bytes = {f: _obj_bytes(H, v) for f, v in before.items()}
+            keepalive.append(before)
+            kind = rng.choices(["A", "Afault", "B", "F", "R", "E"], [4, 3, 3, 3, 3, 2])[0]
+            if iop == 0:
+                kind = rng.choice(["A", "A", "A", "Afault", "F", "B"])
+            method, tok, err, answers = None, None, None, None
+            with warnings.catch_warnings(), quiet_stdout():
+                warnings.simplefilter("ignore")
+                if kind in ("A", "Afault"):
+                    method = "delineate_area"
+                    outlet = rng.choice([ncell - 1, rng.randrange(ncell), rng.randrange(ncell), small_cell()])
+                    wi = rng.random() < 0.5
+                    inl = None
+                    if wi:
+                        inl_base = np.array([rng.randrange(ncell) for _ in range(rng.randint(1, 3))])
+                        inl, _keep = variant(np, pd, inl_base, rng.choice(["c64", "i32", "list", "strided", "pandas"]), "int")
+                        keepalive.append(_keep)
+                    kwargs = {} if cap is None or mode != "acyclic" and cap is None else {"nval": cap}
+                    if mode != "acyclic" and "nval" not in kwargs:
+                        kwargs["nval"] = 4 * ncell          # circular paths: the search only stops when the vectors are full
+                    intent = "ok"
+                    if kind == "Afault":
+                        intent = rng.choice(["badOutlet", "badInlets", "badNval", "kernelError", "kernelError", "kernelError"])
+                        if intent == "badOutlet":
+                            outlet = rng.choice(["x", None, "1.5"])
+                        elif intent == "badInlets":
+                            inl, wi = rng.choice([["a"], np.array(["x", "y"]), [[1], [2, 3]]]), True
+                        elif intent == "badNval":
+                            if rng.random() < 0.3:
+                                outlet = [1, 2]       # np.int64 makes an array of it: the extension call rejects it
+                            else:
+                                kwargs["nval"] = rng.choice([-1, -5, 2.5])
+                        else:
+                            which = rng.randrange(3)
+                            if which == 0:
+                                kwargs["nval"] = rng.choice([1, 2, 3, 4])
+                                outlet = ncell - 1 if rng.random() < 0.7 else outlet
+                            elif which == 1:
+                                outlet = rng.choice([-1, ncell, ncell + 5])
+                            else:
+                                inl, wi = np.array([rng.choice([-1, ncell])]), True
+                    args_desc = {"outlet": repr(outlet), "inlets": None if inl is None else repr(np.asarray(inl, dtype=object).tolist())[:60],
+                                 **{k: repr(v) for k, v in kwargs.items()}}
+                    try:
+                        ca.delineate_area(outlet, inl, **kwargs)
+                    except Exception as e:      # noqa
+                        err = type(e).__name__
+                    if isinstance(inl, np.ndarray) and inl.size and inl.dtype != object:
+                        given.append(["the inlets given to an earlier delineate_area", inl, inl.tobytes()])
+                    if err is None:
+                        out = "empty" if len(ca._idxcells_area) == 0 else "cells"
+                        last_area = (outlet, inl, kwargs)
+                        dirty, done_after = set(), set()
+                    else:
+                        out = intent if intent in ("badOutlet", "badInlets", "badNval") else "kernelError"
+                        if out not in ("badOutlet",):
+                            last_area = None if out == "kernelError" else last_area
+                        if out in ("badInlets", "badNval"):
+                            dirty |= {"outlet", "inlets"}     # outlet (and inlets) of a call that went no further
+                    tok = f"A:{1 if (wi and inl is not None) else 0}:{ih % 7}:{out}"
+                    hist_desc.append(("delineate_area", args_desc, err))
+                elif kind == "B":
+                    method = "delineate_boundary"
+                    mask, mid = None, "-"
+                    u = rng.random()
+                    if u < 0.3 and ca._idxcells_area_filled is not None:
+                        mask = np.zeros(ncell, dtype=np.int64)
+                        mask[ca._idxcells_area_filled] = 1
+                        mid = "1"
+                    elif u < 0.45:
+                        mask, mid = np.zeros(ncell, dtype=np.int64), "2"       # a mask that does not contain the area: rejected
+                    mask_before = None if mask is None else mask.tobytes()
+                    try:
+                        ca.delineate_boundary(mask)
+                    except Exception as e:      # noqa
+                        err = type(e).__name__
+                    if mask is not None and mask.tobytes() != mask_before:
+                        finding(method, "argument_modified", "catchment_area_mask", "delineate_boundary changed the mask it was given",
+                                {"history": hist_desc[-6:]})
+                    tok = f"B:{mid}:{'ok' if err is None else 'err'}"
+                    if mask is not None:
+                        given.append(["the mask given to an earlier delineate_boundary", mask, mask.tobytes()])
+                    if err is None:
+                        done_after.add(("boundary", mid))
+                    hist_desc.append(("delineate_boundary", {"mask": mid}, err))
+                elif kind == "F":
+                    method = "compute_flowpathlengths"
+                    try:
+                        ca.compute_flowpathlengths()
+                    except Exception as e:      # noqa
+                        err = type(e).__name__
+                    tok = f"F:{'ok' if err is None else 'err'}"
+                    if err is None:
+                        done_after.add(("fpl", None))
+                    hist_desc.append(("compute_flowpathlengths", {}, err))
+                elif kind == "R":
+                    cells = np.array([rng.randrange(ncell) for _ in range(3)])
+                    cell = rng.randrange(ncell)
+                    name, fn, fld = rng.choice([
+                        ("idxcells_area", lambda: ca.idxcells_area, "area"),
+                        ("idxcells_area_filled", lambda: ca.idxcells_area_filled, "filled"),
+                        ("idxinlets", lambda: ca.idxinlets, "inlets"), ("idxcell_outlet", lambda: ca.idxcell_outlet, "outlet"),
+                        ("flowpathlengths", lambda: ca.flowpathlengths, "fpl"),
+                        ("xycells_boundary", lambda: ca.xycells_boundary, "xyboundary"),
+                        ("idxcells_boundary", lambda: ca.idxcells_boundary, "boundary"),
+                        ("extent", lambda: ca.extent(), "filled"), ("isin", lambda: (ca.isin(cell), ca.isin(cell, filled=True)), "area"),
+                        ("to_dict", lambda: ca.to_dict(), "area"), ("intersect", lambda: ca.intersect(coarse), "area"),
+                        ("intersect/filled", lambda: ca.intersect(coarse, filled=True), "filled"),
+                        ("upstream", lambda: ca.upstream(cells), "area"), ("downstream", lambda: ca.downstream(cells), "area"),
+                        ("compute_area", lambda: ca.compute_area(lambda x, y: (1000. * x, 1000. * y)), "boundary"),
+                        ("clone", lambda: ca.clone().to_dict(), "area"), ("__str__", lambda: str(ca), "area"),
+                        ("__add__", lambda: (ca + ca).idxcells_area, "filled"), ("__sub__", lambda: (ca - ca).idxcells_area, "filled")])
+                    method = name
+                    answers = []
+                    for _rep in range(2):
+                        try:
+                            answers.append(("ok", fn()))
+                        except Exception as e:      # noqa
+                            answers.append(("err", type(e).__name__))
+                    if answers[0][0] != answers[1][0] or (answers[0][0] == "ok" and same(H, answers[0][1], answers[1][1])):
+                        finding(name, "not_repeatable", fld, f"two consecutive calls of Catchment.{name} on the same receiver differ",
+                                {"history": hist_desc[-6:]})
+                    tok = f"R:{fld}"
+                    hist_desc.append((name, {}, answers[0][1] if answers[0][0] == "err" else None))
+                else:
+                    fld = rng.choice(["area", "filled", "boundary", "xyboundary", "inlets"])
+                    method = "caller_edit"
+                    v = before[fld]
+                    if isinstance(v, np.ndarray) and v.flags.writeable:
+                        v[...] = v[::-1].copy()          # the same cells / points in the reverse order
+                        dirty.add(fld)
+                        stats["caller_edits"] += 1
+                    elif v is not None:
+                        fld = "outlet"                   # nothing the caller can overwrite in place
+                    tok = f"E:{fld}" if isinstance(v, np.ndarray) and v.flags.writeable else f"R:{fld}"
+                    hist_desc.append(("caller_edit", {"field": fld}, None))
+            stats["operations"] += 1
+            stats["rejected_operations"] += err is not None
+            after = fields_of(ca)
+            after_bytes = {f: _obj_bytes(H, v) for f, v in after.items()}
+            case = {"method": method, "history": [list(h) for h in hist_desc[-8:]], "grid": [nrows, ncols], "flowdir": mode}
+            # ---- oracle 1 (model-free): the frame of every method, accepted or rejected
+            if method != "caller_edit":
+                allowed = OBJ_WRITES.get(method, set())
+                for f in OBJ_FIELDS:
+                    if f in allowed or after_bytes[f] == before_bytes[f]:
+                        continue
+                    if f == "filled" and method == "delineate_boundary" and before_bytes[f] is not None and after_bytes[f] is not None \
+                            and before[f] is after[f] and sorted(np.asarray(after[f]).tolist()) == sorted(
+                                np.frombuffer(before_bytes[f][2], dtype=before_bytes[f][0]).tolist()):
+                        ctx.hist["objects/filled_cells_reordered_by_delineate_boundary"] = \
+                            ctx.hist.get("objects/filled_cells_reordered_by_delineate_boundary", 0) + 1
+                        continue        # the documented exception: the kernel sorts the filled cells (same cells)
+                    finding(method, "receiver_state_modified", f,
+                            f"Catchment.{method} ({'rejected: ' + err if err else 'accepted'}) changed `{OBJ_ATTR[f]}` of its "
+                            f"receiver, which it only reads / does not concern it", case)
+                if ca._flowdir.data.tobytes() != fd_bytes:
+                    finding(method, "receiver_state_modified", "flowdir", f"Catchment.{method} changed the flow directions", case)
+                    fd_bytes = ca._flowdir.data.tobytes()
+            for gv in given:
+                if gv[1].tobytes() != gv[2]:
+                    finding(method, "earlier_argument_modified", "argument", f"after Catchment.{method}, {gv[0]} no longer holds "
+                            f"what it held", case)
+                    gv[2] = gv[1].tobytes()
+                for f in OBJ_FIELDS + ["flowdir"]:
+                    v = ca._flowdir._data if f == "flowdir" else after[f]
+                    if isinstance(v, np.ndarray) and v.size and np.shares_memory(v, gv[1]):
+                        ctx.disagree(f"object history: `{OBJ_ATTR.get(f, '_flowdir')}` refers to {gv[0]}: the model says every "
+                                     f"attribute refers to a buffer made inside a call", case)
+            # ---- what the model is asked / compared with
+            toks.append(tok)
+            hk = "objects/op/" + (":".join(tok.split(":")[::3]) if tok[0] == "A" else tok.split(":")[0] + ":" + tok.split(":")[-1]
+                                   if tok[0] in "BF" else tok[0])
+            ctx.hist[hk] = ctx.hist.get(hk, 0) + 1
+            steps.append({"raised": err is not None, "none": {f: after[f] is None for f in OBJ_FIELDS},
+                          "alias": {(f, g): same_buffer(after[f], after[g]) for i, f in enumerate(OBJ_FIELDS)
+                                    for g in OBJ_FIELDS[i + 1:] if after[f] is not None and after[g] is not None},
+                          "rebound": {f: after[f] is not before[f] for f in OBJ_FIELDS},
+                          "changed": {f: after[f] is before[f] and after_bytes[f] != before_bytes[f] for f in OBJ_FIELDS},
+                          "case": case})
+            # ---- oracle 2 (model-free): what the last accepted delineation and the computations made since stored does
+            # not depend on anything that happened before: a new Catchment given those calls only holds the same
+            if last_area is not None and method in ("delineate_area", "delineate_boundary", "compute_flowpathlengths") \
+                    and err is None:
+                twin = G.Catchment("twin", fd)
+                with warnings.catch_warnings(), quiet_stdout():
+                    warnings.simplefilter("ignore")
+                    try:
+                        twin.delineate_area(last_area[0], last_area[1], **last_area[2])
+                        terr = None
+                    except Exception as e:      # noqa
+                        terr = type(e).__name__
+                    stats["twin_comparisons"] += 1
+                    if terr is not None:
+                        finding("delineate_area", "answer_depends_on_earlier_calls", "raises",
+                                f"a new Catchment rejects ({terr}) the delineation this receiver accepted", case)
+                    else:
+                        cmp_fields = ["outlet", "inlets", "area", "filled"]
+                        if ("fpl", None) in done_after and not ({"area", "outlet"} & dirty):
+                            twin.compute_flowpathlengths()
+                            cmp_fields.append("fpl")
+                        for key in [k for k in done_after if k[0] == "boundary"][-1:]:
+                            if not ({"filled", "boundary", "xyboundary"} & dirty) and method == "delineate_boundary":
+                                m = None
+                                if key[1] == "1":
+                                    m = np.zeros(ncell, dtype=np.int64)
+                                    m[twin._idxcells_area_filled] = 1
+                                try:
+                                    twin.delineate_boundary(m)
+                                    cmp_fields += ["boundary", "xyboundary"]
+                                except Exception:      # noqa
+                                    pass
+                        tw = fields_of(twin)
+                        for f in cmp_fields:
+                            if f in dirty:
+                                continue
+                            a, b = _obj_bytes(H, after[f]), _obj_bytes(H, tw[f])
+                            if f == "filled" and a is not None and b is not None:
+                                a, b = sorted(np.asarray(after[f]).tolist()), sorted(np.asarray(tw[f]).tolist())
+                            if a != b:
+                                owner = {"fpl": "compute_flowpathlengths", "boundary": "delineate_boundary",
+                                         "xyboundary": "delineate_boundary"}.get(f, "delineate_area")
+                                finding(owner, "answer_depends_on_earlier_calls", f,
+                                        f"`{OBJ_ATTR[f]}` after this history differs from what a new Catchment holds after the "
+                                        f"last accepted delineation (and the same computations) alone", case)
+        stats["histories"] += 1
+        requests.append("hist [" + ",".join(toks) + "]")
+        observed.append(steps)
+        ctx.count(("objects", ih, tuple(toks)), True, "objects/history")
+    replies = ctx.lean.ask(requests)
+    for req, rep, steps in zip(requests, replies, observed):
+        if not rep.startswith("ok "):
+            ctx.disagree(f"driver: {rep}", {"request": req[:200]})
+            continue
+        msteps = rep.split(" ", 1)[1].split("|")
+        prev_buf = ["-"] * len(OBJ_FIELDS)
+        prev_cnt = ["-"] * len(OBJ_FIELDS)
+        for k, (ms, st) in enumerate(zip(msteps, steps)):
+            raised, bufs, cnts = ms.split(";")
+            bufs, cnts = bufs.split(","), cnts.split(",")
+            impl = [f"raised={int(st['raised'])}"]
+            model = [f"raised={raised}"]
+            for i, f in enumerate(OBJ_FIELDS):
+                impl.append(f"{f}:{'None' if st['none'][f] else 'set'}:{'new' if st['rebound'][f] and not st['none'][f] else 'kept'}")
+                model.append(f"{f}:{'None' if bufs[i] == '-' else 'set'}:{'new' if bufs[i] != prev_buf[i] and bufs[i] != '-' else 'kept'}")
+            for (f, g), al in sorted(st["alias"].items()):
+                i, j = OBJ_FIELDS.index(f), OBJ_FIELDS.index(g)
+                if al:
+                    stats["aliased_attributes_seen"] += 1
+                impl.append(f"{f}~{g}:{int(al)}")
+                model.append(f"{f}~{g}:{int(bufs[i] == bufs[j])}")
+            ctx.compare("C18/object_history", {"request": req[:300], "step": k, **st["case"]}, " ".join(impl), " ".join(model))
+            for i, f in enumerate(OBJ_FIELDS):
+                if st["changed"][f] and bufs[i] == prev_buf[i] and cnts[i] == prev_cnt[i]:
+                    ctx.disagree(f"object history: the contents of `{OBJ_ATTR[f]}` changed in a step in which the model stores "
+                                 f"nothing into it", {"request": req[:300], "step": k, **st["case"]})
+            prev_buf, prev_cnt = bufs, cnts
+    ctx.extra["object_histories"] = stats
+
+
+# ----------------------------------------------------------------------------------------------
+# histories on ONE Grid receiver: everything the caller handed in earlier (arrays given to the data setter / to
+# __setitem__) and everything the grid handed out earlier (clones, clips, applied grids, extracted values) must be out of
+# reach of later mutators, and the receiver out of reach of edits of what it handed out (`returned_private`)
+def grid_objects(ctx, H):
+    np, pd, G = H.np, H.pd, H.grid
+    rng = ctx.rng
+    stats = {"histories": 0, "operations": 0, "watched_arrays": 0}
+
+    def cb_floor(z):
+        z[z < 20] = 0
+        return z
+
+    def cb_shift(z):
+        z += 3
+        return z
+    for ih in range(ctx.scale(40, 300)):
+        nrows, ncols = rng.randint(3, 6), rng.randint(3, 7)
+        dt = rng.choice([np.float64, np.float32, np.int64, np.int32])
+        g = G.Grid("g", ncols, nrows, cellsize=1., xllcorner=0., yllcorner=0., dtype=dt, nodata=-9)
+        watched = []        # [label, object, array, bytes]: the caller's own arrays and what earlier calls handed out
+        desc = []
+
+        def watch(label, arr, keep=None):
+            if isinstance(arr, np.ndarray) and arr.size:
+                watched.append([label, keep, arr, arr.tobytes()])
+                stats["watched_arrays"] += 1
+
+        for iop in range(rng.randint(4, ctx.scale(10, 16))):
+            op = rng.choice(["set", "set", "fill", "setitem", "dtype", "min", "max", "apply", "clone", "clip", "getitem",
+                             "edit_data", "edit_result", "from_dict", "interpolate"])
+            edited, err = None, None
+            recv0 = g._data.tobytes()
+            with warnings.catch_warnings(), quiet_stdout():
+                warnings.simplefilter("ignore")
+                try:
+                    if op == "set":
+                        base = np.round(np.array(floats(rng, nrows * ncols, 0, 50))).reshape(nrows, ncols)
+                        nat = "float" if rng.random() < 0.5 else "int"
+                        val, keep = variant(np, pd, base, rng.choice(KINDS), nat)
+                        if rng.random() < 0.4 and isinstance(val, np.ndarray):
+                            val = val.astype(g.dtype)           # already the dtype of the grid: nothing to convert
+                        g.data = val
+                        watch("argument of the data setter", np.asarray(val) if not isinstance(val, list) else None, (val, keep))
+                    elif op == "fill":
+                        g.fill(rng.randint(0, 9))
+                    elif op == "setitem":
+                        idx = np.array(rng.sample(range(nrows * ncols), 3))
+                        vals, keep = variant(np, pd, np.array(floats(rng, 3, 0, 50)), rng.choice(["c64", "strided", "flt", "i64"]), "float")
+                        g[idx] = vals
+                        watch("values given to __setitem__", vals, keep)
+                        watch("index given to __setitem__", idx)
+                    elif op == "dtype":
+                        g.dtype = rng.choice([np.float64, np.float32, np.int64, np.int32])
+                    elif op == "min":
+                        g.mindata = rng.choice([0, 5, 10])
+                    elif op == "max":
+                        g.maxdata = rng.choice([45, 40, 30])
+                    elif op == "apply":
+                        r = g.apply(rng.choice([cb_floor, cb_shift, np.sqrt, np.abs]))
+                        watch("data of the grid returned by apply", r._data, r)
+                    elif op == "clone":
+                        r = g.clone(rng.choice([None, None, np.float32, np.int64]))
+                        watch("data of the clone", r._data, r)
+                    elif op == "clip":
+                        r = g.clip(0.2, 0.3, ncols - 1.2, nrows - 1.1)
+                        watch("data of the clipped grid", r._data, r)
+                    elif op == "getitem":
+                        r = g[np.array(rng.sample(range(nrows * ncols), 3))]
+                        watch("values returned by __getitem__", r)
+                    elif op == "from_dict":
+                        r = G.Grid.from_dict(g.to_dict())
+                        watch("data of the grid rebuilt from to_dict", r._data, r)
+                    elif op == "interpolate":
+                        tgt = G.Grid("t", 3, 3, cellsize=1.5, xllcorner=0.2, yllcorner=0.2, dtype=np.float64)
+                        r = g.interpolate(tgt, method=rng.choice(["nearest", "linear"]))
+                        watch("data of the interpolated grid", r._data, r)
+                    elif op == "edit_data":
+                        d = g.data                       # the accessor hands out the grid's own array: editing it IS editing the grid
+                        d[...] = d[::-1].copy()
+                        recv0 = g._data.tobytes()
+                    elif op == "edit_result" and watched:
+                        edited = rng.randrange(len(watched))
+                        arr = watched[edited][2]
+                        if arr.flags.writeable:
+                            arr[...] = (arr[::-1] if arr.ndim else arr).copy() if arr.dtype.kind != "f" else arr[::-1].copy() * 0.5 + 1
+                            watched[edited][3] = arr.tobytes()
+                except Exception as e:      # noqa
+                    err = type(e).__name__
+            desc.append((op, err))
+            stats["operations"] += 1
+            case = {"operation": op, "history": desc[-8:], "grid_dtype": str(np.dtype(dt)), "shape": [nrows, ncols]}
+            for k, (label, _keep, arr, snap) in enumerate(watched):
+                if arr.tobytes() != snap:
+                    ctx.finding(f"Grid.{op}/history/earlier_array_modified", f"after `{op}` on the grid, {label} (an array the caller "
+                                f"gave to / got from an EARLIER call) no longer holds what it held", case)
+                    watched[k][3] = arr.tobytes()
+                elif np.shares_memory(arr, g._data):
+                    ctx.disagree(f"Grid history: the grid's data shares memory with {label}; the model says what a Grid stores and "
+                                 f"hands out is private (returned_private)", case)
+            if op == "edit_result" and g._data.tobytes() != recv0:
+                ctx.finding("Grid.data/history/receiver_modified_through_result", "overwriting an array an earlier call handed out "
+                            "changed the cells of the grid", case)
+            ctx.count(("gridobj", ih, iop, op), err is None, f"gridobjects/{op}")
+        stats["histories"] += 1
+    ctx.extra["grid_object_histories"] = stats
+
 
 # ----------------------------------------------------------------------------------------------
 # corpus: minimised past failures, replayed first (same checks as the oracle: arguments byte-wise unchanged after each
@@ -2101,9 +2806,54 @@ def corpus(ctx, H):
                     lambda X, y: H.sutils.lstsq(X, y, add_intercept=True)[0])
         raise ValueError(f"corpus: unknown call {call}")
 
+    def catchment_history(f, j):
+        """ops on one Catchment; at the end (i) every method left alone what it only reads, (ii) the receiver holds what a
+        new Catchment holds after the last delineation (and the computations made since) alone"""
+        fd = mkgrid(j["grid"], np.int32)
+        ca = G.Catchment("c", fd)
+        last, since = None, []
+        for op in j["ops"]:
+            watch = {k: _obj_bytes(H, getattr(ca, OBJ_ATTR[k])) for k in OBJ_FIELDS}
+            meth, args = op[0], op[1:]
+            with warnings.catch_warnings(), quiet_stdout():
+                warnings.simplefilter("ignore")
+                try:
+                    getattr(ca, meth)(*[a for a in args[:2]], **(args[2] if len(args) > 2 else {}))
+                    if meth == "delineate_area":
+                        last, since = op, []
+                    else:
+                        since.append(meth)
+                except Exception:      # noqa
+                    pass
+            for k in OBJ_FIELDS:
+                if k not in OBJ_WRITES.get(meth, set()) and k != "filled" and \
+                        _obj_bytes(H, getattr(ca, OBJ_ATTR[k])) != watch[k]:
+                    ctx.finding(f"corpus/{f.stem}/receiver_state_modified/{k}", f"corpus case {f.stem}: {meth} changed "
+                                f"`{OBJ_ATTR[k]}` ({j.get('origin', '')})", {"corpus": f.name})
+        if last is not None:
+            twin = G.Catchment("t", fd)
+            twin.delineate_area(*last[1:3], **(last[3] if len(last) > 3 else {}))
+            for m in since:
+                getattr(twin, m)()
+            for k in OBJ_FIELDS:
+                a, b = getattr(ca, OBJ_ATTR[k]), getattr(twin, OBJ_ATTR[k])
+                if k == "filled" and a is not None and b is not None:
+                    a, b = np.sort(a), np.sort(b)
+                if k in ("boundary", "xyboundary", "fpl") and not since:
+                    continue
+                if _obj_bytes(H, a) != _obj_bytes(H, b):
+                    ctx.finding(f"corpus/{f.stem}/answer_depends_on_earlier_calls/{k}", f"corpus case {f.stem}: `{OBJ_ATTR[k]}` "
+                                f"differs from what a new Catchment holds after the last delineation alone "
+                                f"({j.get('origin', '')})", {"corpus": f.name})
+
     n = 0
     for f in sorted((C.ROOT / "corpus" / PID).glob("*.json")):
         j = json.loads(f.read_text())
+        if j["call"] == "Catchment.history":
+            catchment_history(f, j)
+            n += 1
+            ctx.count(("corpus", f.name), True, "corpus")
+            continue
         kw, fn = build(j, j["args"])
         work = None
         if j["call"] == "points_inside_polygon/inside":
@@ -2177,7 +2927,10 @@ def body(ctx):
         t.append(time.time())
         histories(ctx, H, entries, pristine)
         t.append(time.time())
-        ctx.extra["phase_seconds"] = dict(zip(("inventory", "correspondence", "oracle", "histories"),
+        objects(ctx, H, rec)
+        grid_objects(ctx, H)
+        t.append(time.time())
+        ctx.extra["phase_seconds"] = dict(zip(("inventory", "correspondence", "oracle", "histories", "objects"),
                                               (round(b - a, 1) for a, b in zip(t, t[1:]))))
     finally:
         pristine.close()
